@@ -37,6 +37,8 @@ def run(c, replay):
     ]
     if replay:
         import json
+        import os
+        replay = os.path.abspath(replay)
         layer = json.load(open(replay)).get("layer", "fields")
         c.run_layer(b, LAYERS.get(layer, LAYERS["fields"]), layer, replay=replay, deadline_s=120, env=fz)
         return
